@@ -243,13 +243,18 @@ func workerCount() int {
 // is skipped, counted, and the worker's range is run again without it. A block that persists is a hang.
 func spawnWorkerClassifyingBlocks(self string, env []string, args []string) (*WorkerResult, string, error) {
 	var skip []string
-	for attempt := 0; ; attempt++ {
-		e := env
-		if len(skip) > 0 {
-			e = append(append([]string{}, env...), "IKESIM_SKIP="+strings.Join(skip, ","))
+	for {
+		e := append([]string{}, env...)
+		if len(skip) >= 2 {
+			// the library synchronises in a way the simulator cannot see (not a tracked lock): parking tasks is not
+			// possible without blocking others. This worker's range is executed without interleaving; the evidence
+			// says so (c18_serialized_phase_degraded_to_sequential); the parallel phase still interleaves for real.
+			e = append(e, "IKESIM_C18_SEQUENTIAL=1", "IKESIM_C18_DEGRADED=1")
+		} else if len(skip) > 0 {
+			e = append(e, "IKESIM_SKIP="+strings.Join(skip, ","))
 		}
 		r, se, err := spawnWorker(self, e, args)
-		if err == nil || attempt >= 8 {
+		if err == nil || len(skip) >= 2 {
 			return r, se, err
 		}
 		idx, ok := parseHang(se)
